@@ -437,6 +437,11 @@ def rich_prog(
                                 inner=True, resources=resources, setup_ok=setup_ok, attrs=attrs,
                                 allow_flag_stmts=allow_flag_stmts and not sub_flag, no_index=no_index or sub_flag,
                                 flag_w=flag_w, sub_w=sub_w, debug_w=debug_w, split_w=split_w, seqop_w=seqop_w))
+            if draw(st.integers(0, 5)) == 0 and not any(b_["k"] == "sub" and b_["prog"]["name"] == name for b_ in body):
+                # DAGs made by one factory function share their qualified name: the nested DAG is called like the DAG
+                # it is nested in (its ids are prefixed all the same, and its parameters stay its own)
+                sp["name"] = name
+                cx.features.add("nested-same-qualname")
             n_par = len(sp["params"])
             n_required = sum(1 for _n, d in sp["params"] if d is None)
             n_given = draw(st.integers(n_required, n_par))
